@@ -73,9 +73,9 @@ func GenCmdBiased(t *rapid.T, l string, b Bias) Cmd {
 			return CmdCreateShardGroup("db0", "rp0", t2000+int64(rapid.IntRange(0, 3).Draw(t, l+".hour"))*int64(time.Hour))
 		case k < 9:
 			return CmdCopyShardOwner(uint64(rapid.IntRange(1, 8).Draw(t, l+".shard")), uint64(rapid.IntRange(1, 5).Draw(t, l+".node")))
-		case k == 9:
+		case k < 12:
 			return CmdRemoveShardOwner(uint64(rapid.IntRange(1, 8).Draw(t, l+".shard")), uint64(rapid.IntRange(1, 5).Draw(t, l+".node")))
-		case k == 10:
+		case k == 12:
 			return CmdDeleteDataNode(uint64(rapid.IntRange(1, 5).Draw(t, l+".node")))
 		}
 	}
